@@ -260,6 +260,12 @@ fn run(case: &Case, out: &mut Out) {
                     out.viol("force-not-armed", "forced termination without WRITABLE in interest and event");
                 }
             }
+            "blackbox" => {
+                // a black-box scenario (kind, k): re-run it with the c02bb binary
+                // (`c02bb <file with: scn 0 <kind> <k>>`); nothing to do in-process
+                out.note("black-box scenario: replay with .build/cargo-target/release/c02bb");
+                out.obs(&[]);
+            }
             other => {
                 out.note(&format!("invalid-case: unknown op {other}"));
                 out.obs(&[]);
